@@ -33,8 +33,10 @@ let float_of_dec (d : dec) : float =
 
 let reg_str = function RegNone -> "none" | Reg (b, e) -> Printf.sprintf "%d:%d" (int_of_nat b) (int_of_nat e)
 
-let kind_of (s : string) : kind =
+let rec kind_of (s : string) : kind =
+  if s.[String.length s - 1] = '!' then KReq (kind_of (String.sub s 0 (String.length s - 1))) else
   match s.[0] with
+  | 'T' -> KTuple (nat_of_int (int_of_string (String.sub s 1 (String.length s - 1))))
   | 'R' -> KReal | 'I' -> KInt | 'B' -> KBool | 'S' -> KString | 'V' -> KRealVec | 'K' -> KBlock
   | 'N' -> KRealVecN (nat_of_int (int_of_string (String.sub s 1 (String.length s - 1))))
   | _ -> failwith "kind"
@@ -78,6 +80,7 @@ let value_str = function
   | VString s -> "s" ^ hex s
   | VReals l -> "[" ^ String.concat ";" (List.map (fun d -> Printf.sprintf "%h" (float_of_dec d)) l) ^ "]"
   | VBlocks l -> "{" ^ String.concat "|" (List.map hex l) ^ "}"
+  | VTuple l -> "(" ^ String.concat ";" (List.map (fun d -> Printf.sprintf "%h" (float_of_dec d)) l) ^ ")"
   | VBad -> "bad"
 
 let presult_str = function
